@@ -743,7 +743,10 @@ type smlTotal struct {
 	NlBefore int    `json:"nl_before"` // '\n' bytes in input[:offset] (counted by the harness)
 	LastNl   int    `json:"last_nl"`   // index of the last '\n' before offset, -1 if none
 	DurUs    int    `json:"dur_us"`
+	DurMs    int    `json:"dur_ms"`
 	Alloc    int    `json:"alloc_bytes"`
+	AllocKB  int    `json:"alloc_kb"`
+	NKB      int    `json:"n_kb"`
 	MsgsOK   bool   `json:"msgs_valid"`
 }
 
@@ -786,8 +789,14 @@ func smlRunJob(j *smlJob) *smlTotal {
 		}
 	}()
 	line.DurUs = int(time.Since(t0) / time.Microsecond)
+	line.DurMs = line.DurUs / 1000
 	runtime.ReadMemStats(&ms1)
 	line.Alloc = int(ms1.TotalAlloc - ms0.TotalAlloc)
+	line.AllocKB = line.Alloc / 1024
+	line.NKB = len(input) / 1024
+	if line.Alloc > 1<<30 { // keep every recorded integer inside TLC's 32-bit range
+		line.Alloc = 1 << 30
+	}
 	if line.Outcome == "panic" {
 		return line
 	}
@@ -951,7 +960,7 @@ func smlRunJobs(w *rec.Writer, jobs []*smlJob, par int, hangAfter time.Duration)
 							n = len(j.Input)
 						}
 						res := &smlTotal{T: "smltotal", Gen: j.Gen, Mode: j.Mode, N: n, Outcome: "hang", Detail: fmt.Sprintf("no result after %v", hangAfter), Input: []int{}, LastNl: -1,
-							DurUs: int(hangAfter / time.Microsecond)}
+							DurUs: int(hangAfter / time.Microsecond), DurMs: int(hangAfter / time.Millisecond), NKB: n / 1024}
 						if j.Big == "" && len(j.Input) <= 2048 {
 							res.Input = rec.Ints([]byte(j.Input))
 						}
@@ -1041,6 +1050,9 @@ func smlTotalPart(w *rec.Writer, r *rand.Rand, n int, bigN int) {
 			}
 		}
 	}
+	// nesting deep enough to exhaust the 1 GB goroutine stack if the recursion were unbounded
+	add("deep-open", "Parse", "", "deep-open", 16<<20)
+	add("deep-sized", "ParseStrict", "", "deep-sized", 4<<20)
 	for _, kind := range []string{"huge-hint-A", "huge-hint-A-strict", "huge-hint-L", "huge-hint-B", "huge-hint-range"} {
 		for _, m := range []string{"Parse", "ParseStrict"} {
 			add(kind, m, "", kind, 0)
